@@ -148,7 +148,7 @@ fn chain_fingerprint<S: Settings>(s: &S, n: usize) -> String {
 
 /// the `sampler_settings` attribute a Zarr trace created for these settings carries (sync writer
 /// over a memory store, async writer over an in-memory object store), read with a fresh reader
-fn zarr_metadata<S: Settings>(s: &S) -> Result<Vec<(&'static str, Value)>, String> {
+fn zarr_metadata<S: Settings + Default>(s: &S) -> Result<Vec<(&'static str, Value)>, String> {
     use nuts_rs::verif::StorageConfig;
     use std::sync::Arc;
     let math = nuts_rs::CpuMath::new(Dens::new(Target::DiagNormal { mu: vec![0.0, 0.0], sigma: vec![1.0, 1.0] }));
@@ -160,9 +160,15 @@ fn zarr_metadata<S: Settings>(s: &S) -> Result<Vec<(&'static str, Value)>, Strin
     let store = Arc::new(zarrs::storage::store::MemoryStore::new());
     let _trace = nuts_rs::ZarrConfig::new(store.clone()).new_trace(s, &math).map_err(|e| format!("{e:#}"))?;
     out.push(("sync", attr(store)?));
+    // a store that already holds the trace of an earlier run with other settings (re-used path)
+    let store = Arc::new(zarrs::storage::store::MemoryStore::new());
+    let _old = nuts_rs::ZarrConfig::new(store.clone()).new_trace(&S::default(), &math).map_err(|e| format!("{e:#}"))?;
+    let _trace = nuts_rs::ZarrConfig::new(store.clone()).new_trace(s, &math).map_err(|e| format!("{e:#}"))?;
+    out.push(("sync-reused-store", attr(store)?));
     let rt = tokio::runtime::Builder::new_current_thread().enable_all().build().map_err(|e| e.to_string())?;
     let os = Arc::new(object_store::memory::InMemory::new());
     let astore = Arc::new(zarrs_object_store::AsyncObjectStore::new(os.clone()));
+    let _old = nuts_rs::ZarrAsyncConfig::new(rt.handle().clone(), astore.clone()).new_trace(&S::default(), &math).map_err(|e| format!("{e:#}"))?;
     let _trace = nuts_rs::ZarrAsyncConfig::new(rt.handle().clone(), astore).new_trace(s, &math).map_err(|e| format!("{e:#}"))?;
     let mem = Arc::new(zarrs::storage::store::MemoryStore::new());
     rt.block_on(crate::c14::futures_lite_shim::copy_object_store(os, mem.clone()))?;
@@ -170,7 +176,7 @@ fn zarr_metadata<S: Settings>(s: &S) -> Result<Vec<(&'static str, Value)>, Strin
     Ok(out)
 }
 
-fn check_value<S: Settings + std::fmt::Debug>(
+fn check_value<S: Settings + std::fmt::Debug + Default>(
     preset: Preset,
     modified: &Value,
     what: &str,
@@ -197,7 +203,7 @@ fn check_value<S: Settings + std::fmt::Debug>(
 
 /// the round-trip oracles, starting from a settings VALUE (built from JSON or directly in Rust)
 #[allow(clippy::too_many_arguments)]
-fn check_settings_value<S: Settings + std::fmt::Debug>(
+fn check_settings_value<S: Settings + std::fmt::Debug + Default>(
     preset: Preset,
     s1: S,
     modified: Option<&Value>,
@@ -290,7 +296,7 @@ struct Job {
     run_chains: bool,
 }
 
-fn jobs_for<S: Settings + std::fmt::Debug>(preset: Preset, default: S, tier: Tier, out: &mut Vec<Job>, p: &mut Partial) {
+fn jobs_for<S: Settings + std::fmt::Debug + Default>(preset: Preset, default: S, tier: Tier, out: &mut Vec<Job>, p: &mut Partial) {
     let base = serde_json::to_value(&default).unwrap();
     out.push(Job { preset, modified: base.clone(), what: "default".into(), must: true, run_chains: true });
     let mut paths = vec![];
